@@ -492,6 +492,7 @@ def check_layout(L, frag=None):
             out.append(("layout-config-rejected", repr(cfirst[1:])))
         else:
             out.extend(same_relative_config_probe(root, L, cpath, schema))
+            out.extend(missing_include_probe(root, L, cpath, schema))
             want_m = ["first", "from-inc1", "from-inc2", "from-inc4", "from-inc3", "last", "from-inc3", "from-inc4"]
             got = cfirst[1]["attrs"].get("m")
             if got != want_m or cfirst[1]["attrs"].get("b1") != "changed" or cfirst[1]["attrs"].get("b2") != "two" \
@@ -533,6 +534,40 @@ def same_relative_name_probe(root, L, spath):
     finally:
         os.chdir(old)
         os.remove(decoy)
+    return out
+
+
+def missing_include_probe(root, L, cpath, schema):
+    """The file that inc1 includes is taken away from where inc1's reference points, and put where
+    the SAME reference text would lead from the top file's directory: a reference is relative to
+    the resource that contains it, so the load must fail now, whichever way the top file is named."""
+    import ZConfig
+
+    def real(k):
+        return os.path.join(root, *[p for p in (L["dirs"][L[k]["dir"]] + "/" + L[k]["name"]).split("/") if p])
+    ref = rel(L, "inc1", "inc2")
+    src = real("inc2")
+    dst = os.path.normpath(os.path.join(os.path.dirname(cpath), *ref.split("/")))
+    if L.get("quoted") or dst == os.path.normpath(src) or os.path.exists(dst) or not dst.startswith(os.path.normpath(root) + os.sep):
+        return []
+    out = []
+    os.makedirs(os.path.dirname(dst), exist_ok=True)
+    os.rename(src, dst)
+    old = os.getcwd()
+    try:
+        os.chdir(os.path.dirname(cpath))
+        for how, arg in (("abspath", cpath), ("relpath", os.path.basename(cpath)), ("url", "file://" + pathname2url(cpath))):
+            try:
+                ZConfig.loadConfig(schema, arg)
+                out.append(("include-resolved-against-the-top-file:%s" % how,
+                            "%%include %s inside %s was satisfied by a file next to the top file" % (ref, L["inc1"]["name"])))
+            except ZConfig.ConfigurationError:
+                pass
+            except Exception as e:  # noqa
+                out.append(("missing-include:internal:%s" % type(e).__name__, str(e)[:200]))
+    finally:
+        os.chdir(old)
+        os.rename(dst, src)
     return out
 
 
